@@ -67,7 +67,7 @@ def do_import(pid, src):
                 meta = json.load(open(os.path.join(dst, "meta.json")))
             except Exception:
                 meta = {}
-            meta["property"] = pid
+            meta["property"] = pid[:3]
             meta["verified"] = {
                 "patch_applies": rca == 0,
                 "demo_exit_unchanged_tree": rc0,
